@@ -1,7 +1,7 @@
 #!/bin/bash
 # seedcheck.sh <patch.diff> <prop> [more props...] : run the quick checks on a scratch copy of /repo with the patch applied.
 set -u
-PATCH="$1"; shift
+PATCH="$(realpath "$1")"; shift
 S=$(mktemp -d /tmp/seedcheck-XXXX)
 rsync -a --exclude .git /repo/ "$S/"
 if ! (cd "$S" && patch -p1 -s < "$PATCH"); then echo "PATCH DOES NOT APPLY"; rm -rf "$S"; exit 3; fi
